@@ -34,6 +34,48 @@ class EngineC(tops.Component):
         return sorted(ids) or None
 
 
+class EngineZone(EngineC):
+    """client lives against a link-local IPv6 peer (addresses with a zone): the runtime half of C17"""
+    suffix = ""
+    ncases = (6, 60)
+
+    def gen_args(self, tier, seed):
+        n = self.ncases[0] if tier == "quick" else self.ncases[1]
+        return [["-seed", str(seed), "-cases", str(n), "-only", "zone"]]
+
+
+class EngineHandover(EngineC):
+    """server lives built against instrumented copies of connection_unix.go / eventloop_unix.go that log every
+    hand-over, registration, close and loop exit in one global order; the Lean hand-over model replays the
+    events (FIFO hand-over per loop) and predicts how many descriptors stay unclosed when everything stopped"""
+    tags = ("verif", "handover")
+    suffix = "-ho"
+    ncases = (36, 600)
+    PLAN = [("connection_unix.go", "entry:newStreamConn:fd;el.idx"),
+            ("eventloop_unix.go", "entry:register0:c.fd;el.idx,entry:close:c.fd;el.idx,entry:closeConns:el.idx")]
+
+    def __init__(self):
+        self.overlay = dict(OVERLAY)
+        self.overlay["pkg/verifsys/vsys.go"] = "vsys/vsys.go"
+
+    def prepare(self):
+        import os
+        import vlib
+        from props.c13 import instrument
+        p = vlib.run(["go", "build", "-o", os.path.join(vlib.BIN, "instr"), "./cmd/instr"], cwd=os.path.join(vlib.VERIF, "tools"), env=vlib.GOENV)
+        if p.returncode != 0:
+            return "cannot build the instrumenter: " + p.stderr[-400:]
+        for rel, funcs in self.PLAN:
+            out, err = instrument(rel, funcs, "github.com/panjf2000/gnet/v2/pkg/verifsys", tag="handover__")
+            if err:
+                return err
+            self.overlay[rel] = out
+        return None
+
+    def nontrivial(self, cr):
+        return any(" E:" in l for l in cr.impl)
+
+
 class EngineRace(EngineC):
     """the same engine lives built with the race detector, while foreign goroutines hammer the
     concurrency-safe API from OnBoot / OnOpen on; every race report is an oracle failure"""
